@@ -28,6 +28,13 @@ Proof. unfold C09_q_prod_R. alg. Qed.
 Lemma S_product_spec a b c d w x y z : nz4 a b c d -> C09_S_product_R a b c d w x y z = Val (qmul [a;b;c;d] [w;x;y;z]).
 Proof. unfold nz4, C09_S_product_R. alg. Qed.
 
+Lemma product_QS_spec a b c d w x y z : nz4 a b c d -> nz4 w x y z -> C09_product_QS_R a b c d w x y z = Val (qmul [a;b;c;d] [w;x;y;z]).
+Proof. unfold nz4, C09_product_QS_R. alg. Qed.
+Lemma mul_QS_spec a b c d w x y z : nz4 a b c d -> nz4 w x y z -> C09_mul_QS_R a b c d w x y z = Val (qmul [a;b;c;d] [w;x;y;z]).
+Proof. unfold nz4, C09_mul_QS_R. alg. Qed.
+Lemma matmul_QH_spec a b c d w x y z : nz4 a b c d -> nz4 w x y z -> C09_matmul_QH_R a b c d w x y z = Val (qmul [a;b;c;d] [w;x;y;z]).
+Proof. unfold nz4, C09_matmul_QH_R. alg. Qed.
+
 Lemma conj_spec w x y z : nz4 w x y z -> C09_conj_R w x y z = Val (qconj [w;x;y;z]).
 Proof. unfold nz4, C09_conj_R. alg. Qed.
 Lemma q_conj_spec w x y z : C09_q_conj_R w x y z = Val (qconj [w;x;y;z]).
